@@ -304,6 +304,84 @@ def execute(case, prefix: Sequence[int], line_level: bool) -> Dict[str, Any]:
     return {"problems": problems, "points": sched.points, "choices": sched.choices, "timeouts": sched.timeouts}
 
 
+_BULK: List[Any] = []
+
+
+def batch_case(item) -> Dict[str, Any]:
+    """the formatter half on its own: one formatter object is handed a SEQUENCE OF BATCHES (the writer thread's flushes, the last one
+    through finalize) - every sequence of small batch sizes including empty ones, and single batches of every size up to 64 and
+    around every power of two up to 16384 and around 100, 500, 1000, 5000, 10000. The file holds every message of every batch once, in order."""
+    import contextlib
+    import io
+    import pyrtma
+    from pyrtma.data_logger.formatters.raw import RawFormatter
+    from pyrtma.data_logger.formatters.json import JsonFormatter
+    from pyrtma.data_logger.formatters.quicklogger import QLFormatter
+    from pyrtma.utils.quicklogger_reader import QLReader
+
+    fmt, sizes = item
+    fcls = {"raw": RawFormatter, "json": JsonFormatter, "quicklogger": QLFormatter}[fmt]
+    need = sum(sizes)
+    while len(_BULK) < need:
+        _BULK.append(mk_msg(len(_BULK) + 1, (len(_BULK) + 1) % 3))
+    d = core.scratch_dir("c17b")
+    old_tmp = tempfile.tempdir
+    tempfile.tempdir = d
+    problems: List[Dict[str, Any]] = []
+    try:
+        path = os.path.join(d, "batch" + fcls.ext)
+        want = _BULK[:need]
+        with open(path, fcls.mode) as fd:
+            f = fcls(fd)
+            at = 0
+            for k, n in enumerate(sizes):
+                part = want[at:at + n]
+                at += n
+                (f.finalize if k == len(sizes) - 1 else f.write)(list(part))
+            with contextlib.suppress(Exception):
+                getattr(f, "data_tmp", None) and f.data_tmp.close()
+        try:
+            if fmt == "raw":
+                got = _raw_ids(open(path, "rb").read())
+                ok = open(path, "rb").read() == b"".join(bytes(m.header) + bytes(m.data) for m in want)
+            elif fmt == "json":
+                lines = open(path).read().splitlines()
+                ok = lines == [m.to_json(minify=True) for m in want]
+                got = []
+                for ln in lines:
+                    try:
+                        got.append(json.loads(ln)["header"]["msg_count"])
+                    except Exception:
+                        got.append("?")
+            else:
+                rd = QLReader()
+                with contextlib.redirect_stdout(io.StringIO()):
+                    rd.load(path, os.path.join(os.path.dirname(pyrtma.__file__), "core_defs.py"), skip_unknown=False)
+                ok = [(bytes(m.header), bytes(m.data)) for m in rd.messages] == [(bytes(m.header), bytes(m.data)) for m in want] and rd.file_header.num_messages == need
+                got = [m.header.msg_count for m in rd.messages]
+            if not ok:
+                wrong = next((i for i, (a, b) in enumerate(zip(got, [m.header.msg_count for m in want])) if a != b), min(len(got), need))
+                problems.append({"kind": "batch-content", "formatter": fmt, "batches": list(sizes), "messages_read": len(got), "first_difference_at": wrong})
+        except Exception as e:
+            problems.append({"kind": "batch-unreadable", "formatter": fmt, "batches": list(sizes), "exc": f"{type(e).__name__}: {str(e)[:140]}"})
+    finally:
+        tempfile.tempdir = old_tmp
+        core.rmtree(d)
+    return {"problems": problems}
+
+
+def batch_items(tier: str):
+    out = []
+    big = sorted(set(range(0, 65)) | {(1 << k) + e for k in range(6, 15 if tier == "thorough" else 14) for e in (-1, 0, 1)}) + [n + e for n in (100, 500, 1000, 5000, 10000) for e in (-1, 0, 1)]
+    for fmt in FORMATTERS:
+        for seq in itertools.product((0, 1, 2, 3), repeat=3):
+            out.append((fmt, seq))
+        for n in big:
+            out.append((fmt, (n, 0)))
+            out.append((fmt, (1, n)))
+    return out
+
+
 def reader_sessions(_=None) -> Dict[str, Any]:
     """the read-back half of the statement for USER-defined types: quicklogger files (two segments of one recording and a file of
     a second recording) are written by the package's own formatter and then loaded one after the other - by one QLReader and by
@@ -588,6 +666,11 @@ def plan(tier: str):
             for config, fmt in combos:
                 if config.startswith("two") and ("g1", (ops, config, fmt), 3000, 0) not in items:
                     items.append(("g1", (ops, config, fmt), 3000, 0))
+        # a flush that carries nothing for a data set between two that do (a pause in the traffic; types the set does not take)
+        for ops in (("flush", "none", "early"), ("flush", "none", "flush"), ("flush", "flush", "flush")):
+            for config, fmt in combos:
+                if config in ("all", "two") and ("g1", (ops, config, fmt), 3000, 0) not in items:
+                    items.append(("g1", (ops, config, fmt), 3000, 0))
     else:
         for ops in scripts(4):
             triggers = sum(1 for o in ops if o in ("flush", "subdiv", "none", "restart"))
@@ -653,6 +736,13 @@ def run(tier: str) -> int:
             chk.violation(f"C17:{p['kind']}:{r['mode']}", f"{p} in script {list(ops)} config={config} formatter={fmt} schedule={_compact(choices)}",
                           {"module": "vf.checks.c17", "case": [list(ops), config, fmt], "choices": choices, "line_level": r["mode"] == "g2"},
                           size=len(ops) * 1000 + sum(1 for c in choices if c) * 10 + len(choices) // 50)
+    bitems = batch_items(tier)
+    for (fmt, sizes), r in zip(bitems, core.pmap(batch_case, bitems)):
+        execs += 1
+        for p in r["problems"]:
+            chk.violation(f"C17:{p['kind']}:{fmt}", f"{p}", {"module": "vf.checks.c17", "batch": [fmt, list(sizes)]}, size=sum(sizes) + len(sizes))
+    chk.count("formatter_batch_sequences", len(bitems))
+    core.close_pool()
     rs = reader_sessions()
     execs += rs["loads"]
     chk.count("reader_loads", rs["loads"])
@@ -674,6 +764,12 @@ def _compact(ch):
 def replay(case) -> int:
     if case.get("reader_sessions"):
         r = reader_sessions()
+        for p in r["problems"]:
+            print("  PROBLEM:", p)
+        print("reproduced" if r["problems"] else "NOT reproduced")
+        return 1 if r["problems"] else 0
+    if case.get("batch"):
+        r = batch_case((case["batch"][0], tuple(case["batch"][1])))
         for p in r["problems"]:
             print("  PROBLEM:", p)
         print("reproduced" if r["problems"] else "NOT reproduced")
